@@ -9,9 +9,10 @@ import args_common as A
 ID = 'C06'
 HARNESS = A.HARNESS
 
-RULE = ('a case = one container argument "-l/--list" bound to a destination of one of 18 kinds (vector deque list '
+RULE = ('a case = one container argument "-l/--list" bound to a destination of one of 21 kinds (vector deque list '
         'queue forward_list stack set multiset unordered_set unordered_multiset priority_queue T[4] std::array<T,4> '
-        'vector<string> tuple<int,string,int> bitset<16> vector<bool> map<string,int>) x a subset of the options '
+        'vector<string> tuple<int,string,int> bitset<16> vector<bool> map<string,int> multimap<string,int> '
+        'unordered_map<string,int> unordered_multimap<string,int>) x a subset of the options '
         '{separator, clear, sort, unique / unique-or-refuse, multi-value} (+ check / general format / position formats '
         '"fmtpos=<idx>~<upper|lower>" = addFormatPos / initial content) x a flat '
         'token sequence with duplicates x a cut of that sequence into 1..3 uses (optionally with empty uses and empty '
@@ -30,11 +31,15 @@ ASSUMPTIONS = [
     'the command line of a case consists of uses of the one container argument: "-l v" / "--list v" and free words, '
     'and uses of the optional flag argument "-f" / "--flag"; '
     'value words do not start with a dash and are not one of the control characters ( ) ! (lexing is C01)',
-    'theorems: fold / cut independence / clear once / sorted / checks on every element for all 18 kinds and every '
+    'theorems: fold / cut independence / clear once / sorted / checks on every element for all 21 kinds and every '
     'accepted option combination; content (placement), unique-drop and unique-refuse for the 11 ContainerAdapter kinds '
     'over int and for vector<string> (formats before the unique test); unique-drop for T[N]/std::array; positions for '
-    'vector<bool>; map<string,int>: pair format, first value for a key wins / existing keys keep their value, refusal '
-    'of duplicate keys; overflow refusal for arrays, tuple, bitset; position formats: tuple element k = k-th value '
+    'vector<bool>; map<string,int> and unordered_map<string,int>: pair format, first value for a key wins / existing '
+    'keys keep their value, refusal of duplicate keys; all four key-value destinations (map, multimap, unordered_map, '
+    'unordered_multimap): with unique data a key of the earlier content keeps exactly its entries, every other key '
+    'given holds exactly its first pair, "duplicates are errors" accepts only new, pairwise different keys; multimap / '
+    'unordered_multimap without unique data hold every pair given (multimap: behind the earlier entries of the key, in '
+    'the order given); overflow refusal for arrays, tuple, bitset; position formats: tuple element k = k-th value '
     'given with the formats of position k, vector<string> element i at position |earlier content| + i, array slots, '
     'the format table of internAddFormat and its range rule, who accepts addFormat / addFormatPos; unique-drop on '
     'vector<string> with position formats only as NoDup + fold (a dropped duplicate shifts the positions); '
@@ -43,19 +48,24 @@ ASSUMPTIONS = [
     'one case per refused option subset',
     'a use without elements (empty word, separators only) still counts for a cardinality: the fold theorems assume no '
     'cardinality (the default of containers) or no such use; the oracle does not judge tuple cases with such uses',
-    'not in the slot pool of the harness, hence not covered: DynamicBitset destinations, multimap / unordered_map, '
-    'pair formats other than "k,v", addFormatKey / addFormatValue of key-value destinations, unsetFlag on bit sets',
+    'not in the slot pool of the harness, hence not covered: DynamicBitset destinations, key-value destinations with '
+    'other key / value types than <string,int>, pair formats other than "k,v", addFormatKey / addFormatValue of key-value destinations, unsetFlag on bit sets',
     'position formats: addFormatPos( idx) with idx >= -1 (idx < -1 indexes mFormats in front of its start: model '
     'Fault, never generated); formatters are uppercase / lowercase, which are invisible on the int destinations '
     '(theorem C06_formats_invisible_on_int), so their placement is observable on vector<string> and the string '
     'element of the tuple only',
     'vector<bool>: positions below 2^40 (pos * 1.5 is computed in double)',
+    'unordered_map / unordered_multimap have no order of their own: harness and model print them ascending by (key, '
+    'value); multimap: iteration order (equal keys in insertion order, guaranteed since C++11)',
 ]
 
-KINDS = ['vi', 'di', 'li', 'qi', 'fi', 'ki', 'si', 'mi', 'usi', 'umi', 'pi', 'ai', 'ri', 'vs', 'ti', 'bs', 'vb', 'ms']
+KINDS = ['vi', 'di', 'li', 'qi', 'fi', 'ki', 'si', 'mi', 'usi', 'umi', 'pi', 'ai', 'ri', 'vs', 'ti', 'bs', 'vb', 'ms',
+         'mms', 'ums', 'umms']
+KV = ['ms', 'mms', 'ums', 'umms']          # map, multimap, unordered_map, unordered_multimap <string,int>
+KV_MULTI = ['mms', 'umms']                 # insert() adds a pair whose key is stored already
 INT_LIST = ['vi', 'di', 'li', 'qi', 'fi', 'ki', 'si', 'mi', 'usi', 'umi', 'pi']
 SORTABLE = ['vi', 'di', 'li', 'fi', 'ai', 'ri', 'vs']
-HAS_ITER = ['vi', 'di', 'li', 'fi', 'si', 'mi', 'usi', 'umi', 'ai', 'ri', 'vs', 'ms']
+HAS_ITER = ['vi', 'di', 'li', 'fi', 'si', 'mi', 'usi', 'umi', 'ai', 'ri', 'vs'] + KV
 CLEARABLE = [k for k in KINDS if k not in ('ai', 'ri', 'ti')]
 
 
@@ -162,7 +172,7 @@ def opts_valid(kind, opts):
                     return False
             else:
                 return False
-    if kind == 'ms' and 'sep=2c' in opts:
+    if kind in KV and 'sep=2c' in opts:
         return False
     return True
 
@@ -171,7 +181,7 @@ def sep_of(kind, opts):
     for o in opts:
         if o.startswith('sep='):
             return chr(int(o[4:], 16))
-    return ';' if kind == 'ms' else ','
+    return ';' if kind in KV else ','
 
 
 SEQS = {
@@ -183,23 +193,32 @@ SEQS = {
     'ti': [['7', 'x', '9'], ['7', 'x'], ['7', 'x', '9', '4'], ['x', '7', '9'], []],
     'bs': [['3', '1', '3'], ['0', '15'], ['2', '16'], ['4', '1', '9', '1'], []],
     'vb': [['3', '1', '3'], ['0', '9', '10'], ['1'], ['14', '2', '15', '22'], ['11', '1'], []],
-    'ms': [['b,2', 'a,1'], ['a,1', 'a,2'], ['c,3', 'a,1', 'c,4', 'b,2'], ['a'], ['a,'], [',1'], ['a,x'], []],
+    'ms': [['b,2', 'a,1'], ['a,1', 'a,2'], ['c,3', 'a,1', 'c,4', 'b,2'], ['a'], ['a,'], [',1'], ['a,x'], [],
+           # a key twice with descending values, a duplicate whose value does not convert (dropped before the
+           # conversion when unique data is set), the key of the initial content
+           ['a,9', 'b,2', 'a,3', 'b,1'], ['b,1', 'b,x'], ['d,4', 'a,0', 'd,4']],
 }
 INITS = {
     'int': [None, '7~3', '2~2~9'],
     'ai': [None, '0~0~9~9', '5~6~5~6'], 'ri': [None, '0~0~9~9', '5~6~5~6'],
     'vs': [None, '61~62'],
-    'ti': [None], 'ms': [None],
+    'ti': [None],
+    # key-value: <key hex>.<int>; a key twice (the maps keep the first entry, the multi-maps both)
+    'ms': [None, '61.7', '61.8~62.5~61.6'],
     'bs': [None, '1~5'],
     'vb': [None, '1', '2~0', '12~11', '2'],
 }
 
 
 def seq_class(kind):
+    if kind in KV:
+        return 'ms'
     return 'int' if kind in INT_LIST or kind in ('ai', 'ri') else kind
 
 
 def init_class(kind):
+    if kind in KV:
+        return 'ms'
     return 'int' if kind in INT_LIST else kind
 
 
@@ -222,7 +241,7 @@ def gen_cases(tier, rng):
         for opts in option_sets(kind):
             valid = opts_valid(kind, opts)
             sep = sep_of(kind, opts)
-            if kind == 'ms' and 'sep=3a' not in opts:
+            if kind in KV and 'sep=3a' not in opts:
                 sep = ';'
             multi = 'multi' in opts
             if not valid:
@@ -354,7 +373,7 @@ def gen_cases(tier, rng):
                                                ['s'] + ['f' if j % 2 else 'l' for j in range(1, len(uses))]))
     for kind in KINDS:
         if kind not in ('vi', 'vs', 'ai', 'ri', 'ti'):
-            sep = ';' if kind == 'ms' else ','
+            sep = ';' if kind in KV else ','
             for fm in (['fmtpos=0~upper'], ['fmtpos=-1~lower']):
                 cases.append(make_case(kind + '0', fm, [render_use(SEQS[seq_class(kind)][0], sep, 0)], 's'))
     # checks and formats reach every single element: a violating element at every position
@@ -385,19 +404,40 @@ def gen_cases(tier, rng):
                 uses = [render_use(p, ',', 0) for p in cut]
                 cases.append(make_case('vs3', ['chk=' + chk], uses, ['s'] * len(uses)))
     # format on other kinds (accepted, no effect on digits; refused for tuples), checks on tuple and map elements
-    for kind in ('vi', 'si', 'ai', 'bs', 'vb', 'ms', 'ti'):
+    for kind in ('vi', 'si', 'ai', 'bs', 'vb', 'ms', 'mms', 'ums', 'umms', 'ti'):
         seq = SEQS[seq_class(kind)][0]
-        sep = ';' if kind == 'ms' else ','
+        sep = ';' if kind in KV else ','
         cases.append(make_case(kind + '0', ['fmt=upper'], [render_use(seq, sep, 0)], 's'))
     cases.append(make_case('ti0', ['chk=minlen~1'], ['7,x,9'], 's'))
     cases.append(make_case('ti0', ['chk=maxlen~1'], ['7,x', '19'], 'ss'))
     cases.append(make_case('ti0', ['multi'], ['7', 'x', '9'], 'sff'))
     cases.append(make_case('ti0', ['multi'], ['7', 'x', '9', '1'], 'sfff'))
     cases.append(make_case('ms0', ['chk=minlen~3'], ['ab,1;c,2'], 's'))
+    # key-value destinations: a key that is stored already - by the initial content, by an earlier pair of the same
+    # value list, by an earlier use of the argument, by the value before a free value - x unique data off / drop /
+    # refuse x clear-before-assign off / on x initial content (none, one entry, a key twice).  Deterministic, both
+    # tiers: insert() alone ignores such a pair on map / unordered_map and adds it on the two multi-maps.
+    for kind in KV:
+        for uq in ([], ['uniq'], ['uniq!']):
+            for clear in ([], ['clear']):
+                for init in (None, '61.7', '61.9~62.5~61.6', '63.1'):
+                    base = uq + clear + (['init=' + init] if init else [])
+                    j = len(cases)
+                    for uses, sp, multi in (
+                            (['a,1;b,2;a,3'], 's', 0),                 # earlier pair of the same list
+                            (['a,5;b,2'], 'l', 0),                      # the initial content only
+                            (['b,2;c,3'], 's', 0),                      # no duplicate among the pairs given
+                            (['a,1;b,2', 'a,3;c,4'], 'ss', 0),          # earlier use
+                            (['b,2', 'b,1', 'b,3'], 'sll', 0),          # three uses, one key, values out of order
+                            (['a,1;b,2', 'a,3'], 'sf', 1),              # free value
+                            (['c,2', 'a,4;c,1', 'c,0;a,2'], 'sff', 1),  # free values with lists
+                            (['a,1;b,2', 'c,7', 'a,x'], 'sfl', 1),      # the duplicate does not convert
+                            (['a,1;b,2', 'a,3'], 'sf', 0)):             # free value without multi-value: refused
+                        cases.append(make_case(kind + str(j % 4), base + (['multi'] if multi else []), uses, sp))
     # random longer sequences on the int kinds
     nrand = 300 if quick else 6000
     for _ in range(nrand):
-        kind = rng.choice(INT_LIST + ['ai', 'ri', 'vs', 'bs', 'vb'])
+        kind = rng.choice(INT_LIST + ['ai', 'ri', 'vs', 'bs', 'vb'] + KV)
         opts = rng.choice([o for o in option_sets(kind) if opts_valid(kind, o)])
         sep = sep_of(kind, opts)
         ln = rng.range(0, 4 if kind in ('ai', 'ri') else 7)
@@ -407,6 +447,8 @@ def gen_cases(tier, rng):
             pool = ['0', '1', '5', '15', '7', '16']
         elif kind == 'vb':
             pool = ['0', '1', '2', '9', '10', '11', '17', '30']
+        elif kind in KV:
+            pool = ['a,1', 'a,2', 'b,1', 'b,0', 'c,-3', 'a,1', 'ab,+4', 'b,7', 'c,x']
         else:
             pool = ['0', '1', '2', '3', '-1', '+2', '9', '10', '-10']
         seq = [rng.choice(pool) for _ in range(ln)]
@@ -429,15 +471,15 @@ def gen_cases(tier, rng):
         init = rng.choice(INITS[ic])
         if init:
             o.append('init=' + init)
-        if kind not in ('vs',) and rng.below(5) == 0:
+        if kind not in ['vs'] + KV and rng.below(5) == 0:
             o.append('chk=' + rng.choice(['lower~0', 'upper~10', 'range~0~10']))
         cases.append(make_case(kind + str(rng.below(4)), o, uses, sp))
     return {'cases': cases, 'exhaustive': not quick,
-            'scopes': ['18 destination kinds x all 48 subsets of {sep, clear, sort, uniq|uniq!, multi} (refused subsets: '
+            'scopes': ['21 destination kinds x all 48 subsets of {sep, clear, sort, uniq|uniq!, multi} (refused subsets: '
                        'one case) x initial contents x %d token sequences per kind x every cut into <= 3 uses%s; '
                        'spelling of later uses (-l / --list / free value), empty elements and empty uses seeded'
                        % (max(len(v) for v in SEQS.values()), ' (seeded 1/4 sample of the multi-use cuts)' if quick else ''),
-                       'flag argument between the uses: 18 kinds x {plain, sort, uniq, clear} x multi on/off x 2 sequences x '
+                       'flag argument between the uses: 21 kinds x {plain, sort, uniq, clear} x multi on/off x 2 sequences x '
                        'every cut into <= 3 uses x every position of the flag x later uses keyed / free / mixed (+ the '
                        'flag twice, seeded)',
                        'position formats: tuple<int,string,int> x 11 format sets (positions 0..2, two on one position, the '
@@ -447,6 +489,9 @@ def gen_cases(tier, rng):
                        'clear} x 3 sequences x every cut x multi on/off; vector<int> and the arrays x 6 sets (incl. the '
                        'refused positions >= N); one case per kind that refuses addFormatPos',
                        'violating element (check / conversion) at every position of a 4-element sequence x every cut',
+                       'key-value destinations (map, multimap, unordered_map, unordered_multimap): a key that is stored '
+                       'already (initial content / earlier pair of the list / earlier use / before a free value) x unique '
+                       'data off, drop, refuse x clear on/off x 4 initial contents (one with a key twice) x 9 use patterns',
                        'random: %d longer sequences with random cuts' % nrand]}
 
 
@@ -686,8 +731,16 @@ def expected(slot, opts, words, flag=None):
             if kind == 'bs':
                 return 'ok', '[' + ','.join(map(str, sorted(bits))) + ']'
             return 'ok', {'bits': sorted(bits)}
-        if kind == 'ms':
-            cur = {}
+        if kind in KV:
+            adds = kind in KV_MULTI       # insert() of the multi-maps stores a pair whose key is there already
+            cur = []                      # (key, value) in the order stored
+            for x in (init or []):
+                k, z = x.split('.')
+                k = bytes.fromhex(k).decode('latin-1')
+                if adds or all(k != e[0] for e in cur):
+                    cur.append((k, int(z)))
+            if clear and used:
+                cur = []
             for t in flat:
                 t = elem(t) if not fmts else _chk_only(checks, t, kind)
                 if ',' not in t:
@@ -695,17 +748,22 @@ def expected(slot, opts, words, flag=None):
                 k, v = t.split(',', 1)
                 if k == '' or v == '':
                     raise Refuse('pair format')
-                if k in cur:
-                    if uniq and dup_err:
+                have = any(k == e[0] for e in cur)
+                if uniq and have:
+                    # unique data: a key that is stored is a duplicate, on every kind of map
+                    if dup_err:
                         raise Refuse('duplicate')
-                    if uniq:
-                        continue
+                    continue
                 z = _to_int(v)
                 if z is None:
                     raise Refuse('conversion')
-                if k not in cur:
-                    cur[k] = z
-            return 'ok', '{' + ','.join('s%s:%d' % (A.hx(k), cur[k]) for k in sorted(cur, key=lambda s: s.encode('latin-1'))) + '}'
+                if adds or not have:
+                    cur.append((k, z))
+            if kind == 'umms':
+                cur = sorted(cur, key=lambda e: (e[0].encode('latin-1'), e[1]))
+            else:
+                cur = sorted(cur, key=lambda e: e[0].encode('latin-1'))      # stable: equal keys in the order stored
+            return 'ok', '{' + ','.join('s%s:%d' % (A.hx(k), z) for k, z in cur) + '}'
     except Refuse:
         return 'err', None
     return None, None
@@ -883,12 +941,18 @@ def shrink(case):
 
 CLAIM = {
     'text': 'Coq theorems (Properties_C06.v) over an executable model of the assign() functions of all container '
-            'destinations (ArgH/Cont.v): for all 18 destination kinds, every option combination the setters accept and '
+            'destinations (ArgH/Cont.v): for all 21 destination kinds, every option combination the setters accept and '
             'every list of uses, the destination equals the fold of the flat element sequence (cont_fold), hence is '
             'independent of how the sequence is cut into uses, lists and free values (cont_cut_independent); earlier '
             'content is discarded exactly once (cont_clear_once); sorting yields ascending order; checks reach every '
-            'element; unique data drops resp. refuses duplicates (int containers, vector<string> after formatting, map '
-            'keys); arrays, tuple and bitset refuse what they cannot hold; a free value after another argument (a '
+            'element; unique data drops resp. refuses duplicates (int containers, vector<string> after formatting, the '
+            'keys of all four key-value destinations map / multimap / unordered_map / unordered_multimap<string,int>: '
+            'cont_kv_unique - a key of the earlier content keeps exactly its entries, any other key given holds '
+            'exactly its first pair, whatever insert() of the container does with a stored key; cont_kv_unique_refuse); '
+            'without unique data map / unordered_map keep the first pair per key (cont_map_content), multimap holds '
+            'every pair given behind the earlier entries of its key in the order given (cont_multimap_content), '
+            'unordered_multimap all of them (cont_unordered_multimap_content); arrays, tuple and bitset refuse what '
+            'they cannot hold; a free value after another argument (a '
             'flag) never reaches the container (cont_flag_ends_value_list); position formats (addFormatPos) follow the '
             'element that is filled - tuple element k gets the formats of position k, a vector<string> element the '
             'formats of the position it lands at - independent of the cut (cont_tuple_elements, cont_strs_content). '
@@ -897,8 +961,8 @@ CLAIM = {
             'tied to the code by a correspondence check through the real Handler (all kinds x all option subsets x cuts).',
     'note': 'trusted: Coq kernel, extraction (ExtrOcamlBasic), the hand-written model (validated by correspondence on '
             'every run), the configuration translation of driver and harness; lexing of the command line is C01 (value '
-            'words do not start with a dash); DynamicBitset / multimap destinations and position formats are not in '
-            'the harness pool',
+            'words do not start with a dash); DynamicBitset destinations and key / value formats of the key-value '
+            'destinations are not in the harness pool; unordered containers are compared in sorted order',
     'technique': 'Coq proof (refinement of the use-by-use evaluation to a fold over the concatenated elements, '
                  'permutation equivalence for sorting, history invariants); model/implementation correspondence, '
                  'exhaustive small scopes in the thorough tier',
